@@ -223,6 +223,9 @@ def C01(tier):
              params={"types": "i8/i64/n64/u8"}),
         dict(name="random_dev", family="quant", trace="Trace_Quant", profile="dev", gen=dict(count=(4000, 40000))),
         dict(name="random_release", family="quant", trace="Trace_Quant", profile="release", gen=dict(count=(1500, 15000))),
+        # lanes with a run of 70..260 equal values (recursion as deep as the run) and requests around the end of the run
+        dict(name="deep_recursion", family="quant", trace="Trace_Quant", profile="dev", chunk=100,
+             gen=dict(count=(300, 3000), params={"deep": "1"})),
     ]
     return dict(models=quantile_models(tier), stages=stages, nontrivial=quant_nontrivial, exhaustive=True,
                 rule="every (lane over the spaced 4-bit value set, request, strategy) behaviour of MC_Quantile_emit replayed on i8 (as is and "
